@@ -98,7 +98,9 @@ Definition find_chrom_answer (nm : name) (cas : list sexp) : option sexp :=
 
 Definition c07_oracle (c out : sexp) : sexp :=
   let status := getZ (nthS 0 out) in
-  if negb (Z.eqb status 0) then sB true      (* refused input: C13's business *)
+  if Z.eqb status 1 then sB true             (* refused with an error value: C13's business *)
+  else if negb (Z.eqb status 0) then sB false (* panic / no return: the accumulator is total (C07_chrom_terminates,
+                                                 C07_sections_encoded), so the writer must return on every case *)
   else
     let sizes := get_sizes (nthS 2 c) in
     let inp := input_of c in
